@@ -21,3 +21,89 @@ Example C17_ex1 : reader_contains_any [97;98;99;100;101;102;103;104;105;88]%N [[
 Proof. vm_compute. reflexivity. Qed.
 Example C17_ex2 : reader_contains_any [97;98;99;100;101;102;103;104;105;88]%N [[105;88]%N; []] = true.
 Proof. vm_compute. reflexivity. Qed.
+
+(* ==================================================================================== *)
+(* C17, remaining clauses: WriteFile, WriteReader and SafeWriteReader followed by ReadFile.
+   Models: Model/IOUtil.v (ioutil.go ReadFile/readAll/WriteFile, util.go WriteReader /
+   SafeWriteReader / Exists over an arbitrary filesystem), instantiated with MemMapFs (m_step).
+   The same models run on bp:/d(mem), cow(mem,mem), cache:0(mem,mem) in the harness (c17b.go). *)
+From AF Require Import Lib.Path Lib.Ops Model.MemFile Model.MemFs Model.IOUtil
+  Proofs.PathProof Proofs.MemFsBasics Proofs.MemCreate Proofs.IOUtilProof.
+
+(* WriteFile then ReadFile: for EVERY payload b (every size: the read loop is proved by induction on
+   what is left to read, the size hint and the 1e9 cap play no role) and every permission, in every
+   state where p is a regular file, or p is absent and its parent directory is present
+   ([sane_for]; MemMapFs does not need more for the open to succeed). *)
+Theorem C17_write_read : forall (s : mst) (p : str) (b : bytes) (perm : Z) (s' : mst),
+  sane_for s p ->
+  write_file m_step s p b perm = (s', ROk) ->
+  exists s'', read_file m_step s' p = (s'', RData b None).
+Proof.
+  intros s p b perm s' Hs H. pose proof (write_read_roundtrip s p b perm s' Hs H) as E.
+  destruct (read_file m_step s' p) as [s'' r]. cbn [snd] in E. subst r. now exists s''.
+Qed.
+Print Assumptions C17_write_read.
+
+(* the read loop alone: a regular file holding [data] is read back exactly, whatever its length *)
+Theorem C17_read_file_exact : forall (s : mst) (p : str) (data : bytes),
+  holds s p data -> snd (read_file m_step s p) = RData data None.
+Proof. exact read_file_holds. Qed.
+Print Assumptions C17_read_file_exact.
+
+(* WriteReader then ReadFile: for every list of chunks the reader hands out (io.Copy's 32 KiB buffer
+   splits long ones), every state whose path map points into the heap and has a root, and every path
+   whose last element is a proper name (not "", ".", ".."): the bytes come back exactly, and the
+   directory part of p (created by MkdirAll when missing; "/" for a bare name) exists afterwards. *)
+Theorem C17_write_reader : forall (s : mst) (p : str) (chunks : list bytes) (s' : mst),
+  mem_wf s -> lookup s s_slash <> None -> good_seg (snd (path_split p)) ->
+  write_reader m_step s p chunks = (s', ROk) ->
+  snd (read_file m_step s' p) = RData (concat chunks) None /\
+  exists d dn, lookup s' (normalize_path (fst (path_split p))) = Some d /\ get_node s' d = Some dn.
+Proof. exact write_reader_roundtrip. Qed.
+Print Assumptions C17_write_reader.
+
+(* SafeWriteReader never alters a path that exists: when Stat(p) succeeds ([exists_at], see
+   C17_exists_is_stat) and the directory part of p is "" or present, the call returns an error and
+   the path map and every node are what they were (fs_view: everything but handles and the clock). *)
+Theorem C17_safe_write_preserves : forall (s : mst) (p : str) (chunks : list bytes),
+  exists_at s p ->
+  (fst (path_split p) = [] \/ lookup s (normalize_path (fst (path_split p))) <> None) ->
+  (exists e, snd (safe_write_reader m_step s p chunks) = RErr e) /\
+  fs_view (fst (safe_write_reader m_step s p chunks)) = fs_view s.
+Proof. exact safe_write_preserves. Qed.
+Print Assumptions C17_safe_write_preserves.
+
+Theorem C17_exists_is_stat : forall s p,
+  (exists fi, snd (m_step s (Stat p)) = RInfo fi) <-> exists_at s p.
+Proof. exact stat_succeeds_iff. Qed.
+Print Assumptions C17_exists_is_stat.
+
+(* MkdirAll on a path that exists changes nothing (the lemma behind the previous theorem) *)
+Theorem C17_mkdirall_existing_noop : forall s D perm, lookup s (normalize_path D) <> None ->
+  snd (m_step s (MkdirAll D perm)) = ROk /\ fs_view (fst (m_step s (MkdirAll D perm))) = fs_view s.
+Proof. exact mkdirall_existing. Qed.
+Print Assumptions C17_mkdirall_existing_noop.
+
+(* the hypotheses are satisfiable and the models compute *)
+Example C17_ex_sane : sane_for m_init [47; 102]%N.     (* "/f" in the initial filesystem *)
+Proof. vm_compute. exists 0%nat. eexists. split; reflexivity. Qed.
+Example C17_ex_wf : mem_wf m_init /\ lookup m_init s_slash <> None /\ good_seg (snd (path_split [47; 97; 47; 102]%N)).
+Proof.
+  split; [exact mem_wf_init|]. split; [discriminate|]. vm_compute.
+  repeat split; try discriminate. intros [H|[]]. discriminate.
+Qed.
+Example C17_ex_roundtrip :
+  let '(s1, w) := write_file m_step m_init [47; 102]%N (repeat 7%N 1300) 420 in
+  (w, snd (read_file m_step s1 [47; 102]%N)) = (ROk, RData (repeat 7%N 1300) None).
+Proof. vm_compute. reflexivity. Qed.
+Example C17_ex_write_reader :       (* "/a/b/f": both directories are missing; chunks incl. an empty one *)
+  let '(s1, w) := write_reader m_step m_init [47; 97; 47; 98; 47; 102]%N [[1; 2]; []; [3]]%N in
+  (w, snd (read_file m_step s1 [47; 97; 47; 98; 47; 102]%N), snd (m_step s1 (Stat [47; 97; 47; 98]%N)))
+  = (ROk, RData [1; 2; 3]%N None,
+     RInfo (mkFi [98]%N true dir_size (Z.lor mode_dir 511) (BIG + 0))).
+Proof. vm_compute. reflexivity. Qed.
+Example C17_ex_safe :               (* the second SafeWriteReader is refused and changes nothing *)
+  let '(s1, _) := write_reader m_step m_init [47; 102]%N [[1]]%N in
+  let '(s2, r) := safe_write_reader m_step s1 [47; 102]%N [[9; 9]]%N in
+  (r, snd (read_file m_step s2 [47; 102]%N)) = (RErr (E KOther), RData [1]%N None).
+Proof. vm_compute. reflexivity. Qed.
